@@ -332,20 +332,22 @@ func ruleDemuxRouting(c *Ctx, r1, r2 string) {
 		}
 		if p.callbackField(g.Call.Value) == "goat.Demux.onNewConnection" {
 			na++
-			// announced with a transport over this connection's own channels
-			o := p.Origins().Of(g.Call.Args[0])
-			okA, why := o.AllMatch("call(goat.NewGoatOverChannel,makechan(*),makechan(*))")
-			c.check(r2, "newConnLocked:announces-own-channels", okA, "the connection announced reads from r and writes to w of the record just created: "+why, p.ipos(g))
+			// announced: the very record stored in the registry (which is the logical connection's transport)
+			okA := false
+			for _, mu := range p.MapUpdates(fieldKey{"goat.Demux.conns", "value"}) {
+				if mu.Parent() == nc && p.sameValue(stripConv(g.Call.Args[0]), mu.Value) {
+					okA = true
+				}
+			}
+			c.check(r2, "newConnLocked:announces-own-channels", okA, "the connection announced is the record just registered under the key", p.ipos(g))
 		} else {
 			nw++
 		}
 	}
 	c.check(r2, "newConnLocked:one-writer-one-announcement", nw == 1 && na == 1, fmt.Sprintf("%d writer goroutines, %d announcements per created connection", nw, na), p.pos(nc.Pos()))
-	// NewGoatOverChannel(c.r, c.w): argument order
-	for _, ci := range p.callsTo(nc, "goat.NewGoatOverChannel", false) {
-		a := ci.Common().Args
-		c.check(r2, "newConnLocked:channel-roles", strings.HasSuffix(p.lpath(a[0]), ".r") && strings.HasSuffix(p.lpath(a[1]), ".w"), "the logical connection reads from r and writes to w (swapping them compiles)", p.ipos(ci.(ssa.Instruction)))
-	}
+	// channel roles of the logical connection: it reads from r and writes to w
+	rd, wr := p.MustFn("goat.demuxConn.Read"), p.MustFn("goat.demuxConn.Write")
+	c.check(r2, "demuxConn:channel-roles", p.recvsFromField(rd, "r") && !p.recvsFromField(rd, "w") && p.sendsOnField(wr, "w") && !p.sendsOnField(wr, "r"), "the logical connection reads from r and writes to w (swapping them compiles)", p.pos(rd.Pos()))
 }
 
 func ruleDemuxWriter(c *Ctx, rule string) {
@@ -357,6 +359,14 @@ func ruleDemuxWriter(c *Ctx, rule string) {
 		ok, why := o.AllMatch("recv(_)")
 		c.check(rule, "connWriter:writes-what-it-received", ok, "the shared writer writes the received envelope unchanged: "+why, p.ipos(wr))
 		c.check(rule, "connWriter:writes-to-shared-transport", p.locPathOfLoadDeep(wr.Call.Value) == "goat.Demux.rw", "writes go to the shared transport", p.ipos(wr))
+	}
+	for _, fk := range []string{"goat.demuxConn.Write"} {
+		cw := p.MustFn(fk)
+		for _, u := range p.chanUsesIn(cw) {
+			if u.kind == "send" {
+				c.check(rule, fk+":hands-the-envelope-itself", p.sameValue(sendOf(u), paramNamed(cw, "rpc")), "the logical connection hands over the envelope pointer itself", p.ipos(u.instr))
+			}
+		}
 	}
 	_, cw := p.rwClosures(p.MustFn("goat.NewGoatOverChannel"))
 	for _, u := range p.chanUsesIn(cw) {
@@ -484,4 +494,53 @@ func ruleChannelReadFailsAfterClose(c *Ctx, rule string, f *ssa.Function, name s
 		c.check(rule, name+":comma-ok", found, "the receive tests for closure and the closed branch returns", p.ipos(i))
 	})
 	c.floor(rule, "receives in "+name, n, 1)
+}
+
+// ruleWriteFailsAfterCancel: a write on a logical connection selects on the connection's closure signal and the
+// branch it selects returns a provably non-nil error.
+func ruleWriteFailsAfterCancel(c *Ctx, rule string, f *ssa.Function, name string) {
+	p := c.p
+	n := 0
+	allInstrs(f, func(i ssa.Instruction) {
+		sel, ok := i.(*ssa.Select)
+		if !ok {
+			return
+		}
+		hasSend := false
+		for _, st := range sel.States {
+			if st.Dir == types.SendOnly {
+				hasSend = true
+			}
+		}
+		if !hasSend {
+			return
+		}
+		n++
+		okSig := false
+		for si, st := range sel.States {
+			if st.Dir != types.RecvOnly || p.chanDesc(st.Chan) == "Done()" {
+				continue
+			}
+			closed := false
+			for _, u := range p.chanUses() {
+				if u.kind == "close" && classesIntersect(p.chanClass(st.Chan), p.chanClass(u.ch)) {
+					closed = true
+				}
+			}
+			if !closed {
+				continue
+			}
+			idx := extractOf(sel, 0)
+			for _, r := range returnsOf(f) {
+				if idx != nil && p.Facts(r).Eq("const:"+itoa(si), p.lpath(idx)) {
+					v := retVals(r)
+					if ok2, _ := p.provablyNonNilErr(v[len(v)-1], r); ok2 {
+						okSig = true
+					}
+				}
+			}
+		}
+		c.check(rule, name+":cancelled⇒error", okSig, "a write on a cancelled connection fails (its select has the closure signal as a case whose branch returns an error) instead of blocking for ever", p.ipos(i))
+	})
+	c.floor(rule, "send selects in "+name, n, 1)
 }
